@@ -1,5 +1,6 @@
 (** C31 property theorems: for every history of calls (responders answering at once, later, with a
-    declared or undeclared error, or missing), box deliveries in either direction, pending
+    declared error or a subclass of it, a declared fatal error, an undeclared error, or missing; callbacks and
+    errbacks that synchronously make a further call at answer, error or connection-loss time), box deliveries in either direction, pending
     responders answering in any order, and connection loss at any point. *)
 From Coq Require Import List Arith Bool Permutation.
 From C31 Require Import Model Proofs.
@@ -20,15 +21,23 @@ Theorem each_call_fires_exactly_once_after_loss : forall ops,
 Proof. exact all_fired_after_loss. Qed.
 Print Assumptions each_call_fires_exactly_once_after_loss.
 
-(** the loss itself fails every outstanding call with the loss reason, A's first then B's *)
+(** the loss fails every outstanding call (A's, then B's) with the loss reason, each followed at once
+    by the failure of the call its errback makes; [fail_all] is that list, and its fired ids are the
+    outstanding ids plus the new ones *)
 Theorem unanswered_fail_with_loss_reason : forall s, up s = true ->
-  snd (step s ODisc) = ELost :: map (fun tc => EResult (snd tc) RLost) (outA s ++ outB s)
-  /\ outA (fst (step s ODisc)) = [] /\ outB (fst (step s ODisc)) = [] /\ up (fst (step s ODisc)) = false.
+  let r := step s ODisc in
+  snd r = ELost :: fst (fail_all (outA s ++ outB s) (follows s) (ncalls s))
+  /\ outA (fst r) = [] /\ outB (fst r) = [] /\ up (fst r) = false
+  /\ Permutation (F (snd r)) (map snd (outA s ++ outB s) ++ seq (ncalls s) (ncalls (fst r) - ncalls s)).
 Proof. exact loss_fails_all. Qed.
 Print Assumptions unanswered_fail_with_loss_reason.
 
-Theorem calls_after_loss_fail_immediately : forall s p k, up s = false ->
-  step s (OCall p k) = (set_ncalls (S (ncalls s)) s, [EResult (ncalls s) RLost]).
+(** a call made after the loss fails at once, and so does the call its errback makes *)
+Theorem calls_after_loss_fail_immediately : forall s p k f, up s = false ->
+  let r := step s (OCall p k f) in
+  up (fst r) = false /\ outA (fst r) = outA s /\ outB (fst r) = outB s /\
+  (snd r = [EResult (ncalls s) RLost] \/
+   snd r = [EResult (ncalls s) RLost; ENested (S (ncalls s)); EResult (S (ncalls s)) RLost]).
 Proof. exact call_after_loss. Qed.
 Print Assumptions calls_after_loss_fail_immediately.
 
@@ -46,6 +55,6 @@ Print Assumptions answer_matches_own_question_partial.
 (** ... and an answer whose tag is outstanding resolves exactly the request filed under it *)
 Theorem answer_resolves_the_request_with_its_tag : forall s q tag n c,
   lookup tag (outs s q) = Some c ->
-  deliver_box q (BAns tag n) s = (set_outs q (remove_tag tag (outs s q)) s, [EResult c (ROk n)], false).
+  exists s1 rest, deliver_box q (BAns tag n) s = (s1, EResult c (ROk n) :: rest, false).
 Proof. exact answer_resolves_its_tag. Qed.
 Print Assumptions answer_resolves_the_request_with_its_tag.
